@@ -62,7 +62,9 @@ def choreoOfFacts : Choreo where
   wlErrCloses := (Gen.writeLoopBody.dropWhile (· != ("if{", "err != nil"))).take 3 ==
     [("if{", "err != nil"), ("call", "Association.closeNetConn"), ("break", "loop")]
   tlCw := ((armBody Gen.timerLoopSelectArms "recv Association.closeWriteLoopCh").getLast?) == some ("return", "")
-  shCw := armBody Gen.shutdownSelectArms "recv Association.closeWriteLoopCh" == [("return", "")]
+  shCw := hasArm Gen.shutdownSelectArms "recv Association.closeWriteLoopCh"
+  shCwChecks := armBody Gen.shutdownSelectArms "recv Association.closeWriteLoopCh" ==
+    [("RLock", "Association.lock"), ("RUnlock", "Association.lock"), ("if{", "!completed"), ("return", ""), ("}", ""), ("return", "")]
   shCtx := armBody Gen.shutdownSelectArms "recv ctx.Done()" == [("return", "")]
   cnHs := hasArm (armsOf "createClientWithOptionsWithContext") "recv Association.handshakeCompletedCh"
   cnRc := armBody (armsOf "createClientWithOptionsWithContext") "recv Association.readLoopCloseCh" == [("return", "")]
